@@ -1,16 +1,20 @@
 // C06 harness: the test runner of pkg/test is fail-closed.
-//   Part A (runner.go): random dependency graphs through the real Test.Run /
-//     RunTestsSilent, compared with Model/Runner.v and judged by an oracle
-//     written from the property text.
-//   Part B (fault.go, platform.go): every test of the TXT and Boot Guard suites on
-//     a healthy synthetic platform wrapped into a fault injector, for the fault
-//     patterns "k-th hardware call and all later ones fail" and "only the k-th
-//     call fails": no panic, no hang, no PASS when every access fails.  The
-//     runs of whole real suites are replayed through the model as well (real
-//     dependency graphs, the outcomes the real checks produced as oracle).
+//
+//	Part A (runner.go): random dependency graphs through the real Test.Run /
+//	  RunTestsSilent, compared with Model/Runner.v and judged by an oracle
+//	  written from the property text.
+//	Part B (fault.go, platform.go): every test of the TXT and Boot Guard suites on
+//	  a healthy synthetic platform wrapped into a fault injector, for the fault
+//	  patterns "k-th hardware call and all later ones fail" and "only the k-th
+//	  call fails": no panic, no hang, no PASS when every access fails.  The
+//	  runs of whole real suites are replayed through the model as well (real
+//	  dependency graphs, the outcomes the real checks produced as oracle).
 package main
 
 import (
+	"io"
+	"log"
+
 	hwmock "github.com/9elements/converged-security-suite/v2/pkg/hwapi"
 	"verifharness/gal"
 )
@@ -19,6 +23,7 @@ const header = "From CSS Require Import Lib.Base Lib.Cases Model.Runner Model.Ru
 
 func main() {
 	c := gal.New("C06", header, 400)
+	log.SetOutput(io.Discard) // go-linux-lowlevel-hw logs every failed read
 	hw := hwmock.GetPcMock(hwmock.MockPCReadMemory)
 	partA(c, hw)
 	partB(c)
